@@ -94,9 +94,11 @@ def rand_exec(rng, nops):
         elif op == "substr":
             n, n2 = rng.randint(-6, 6), rng.randint(-1, 6)
         elif op == "printfw":
-            n, n2 = rng.choice([5, -17]), rng.choice([1, 3, 202, 203, 204, 260])
+            n, n2 = rng.choice([5, -17]), rng.choice([1, 3, 199, 200, 201, 202, 203, 204, 260])
+            if rng.random() < 0.5:
+                op = "fprintfw"        # the static String::fromPrintf (same abstract effect; the driver logs it as printfw)
         ops.append(line(op, i, k, m, d, n, n2))
-        if op == "printfw":      # the long text (second printf path) is cut down again at once: the reference functions
+        if op in ("printfw", "fprintfw"):      # the long text (second printf path) is cut down again at once: the reference functions
             ops.append(line("resize", i, n=rng.randint(0, 4)))     # of the trace spec are recursive (depth = length)
     return ops
 
@@ -220,6 +222,14 @@ def run(ctx):
     # 3. direction B: random histories on three real String variables, validated by TLC against ByteStrings
     nexec, nops = (500, 40) if ctx.quick else (20000, 60)
     execs = [rand_exec(ctx.rng, nops) for _ in range(nexec)]
+    # directed (round 7): formatted texts around the size of printf's first buffer (200 bytes), through the member printf and
+    # through the static fromPrintf (driver op fprintfw, logged as printfw: the abstract effect is the same)
+    for opn in ("printfw", "fprintfw"):
+        for v in (5, -17):
+            e = []
+            for w in range(190, 212):
+                e += [line(opn, 1 + w % 3, n=v, n2=w), line("copy", 1 + (w + 1) % 3, k=1 + w % 3), line("resize", 1 + w % 3, n=w % 4)]
+            execs.append(e)
     check_executions(ctx, binary, execs, "random")
     count_nops(ctx, "random")
     hist = ctx.notes.get("op_histogram_random", {})
